@@ -1114,7 +1114,11 @@ def run(ctx):
     jobs = []; seq0 = ctx.seed * 10000019; file0 = 0
     for cfg, be, share, grids in cfgs:
         base = dict(paths=ctx.paths, hdr=ctx.paths[cfg]['hdr'], cfg=cfg, backend=be, scratch=ctx.scratch, ncalls=ncalls, seed=ctx.seed); base['ck'] = ctx.ck
-        ga = ctx.dir(f'golden-api-{cfg}-{be}'); build_golden(dict(base, golden=ga), ga); gf = ctx.dir(f'golden-file-{cfg}-{be}'); build_golden(dict(base, golden=gf), gf, small=True)
+        try: ga = ctx.dir(f'golden-api-{cfg}-{be}'); build_golden(dict(base, golden=ga), ga); gf = ctx.dir(f'golden-file-{cfg}-{be}'); build_golden(dict(base, golden=gf), gf, small=True)
+        except Died as e:
+            # the population of well-formed objects every workload starts from could not even be built: a well-formed call killed the host
+            ctx.violation(f'{e.fn}|well-formed|{death_sig(e)}', f'the library terminated the host process inside {e.fn} while the well-formed starting population was being created ({cfg}/{be})', {'mode': 'golden', 'cfg': cfg, 'backend': be, 'note': e.note, 'stderr_tail': report_head(e)})
+            ctx.case(('golden', cfg, be)); continue
         del base['ck']
         for fam in (FAMILIES if grids else ['copy-use']):
             if True:
